@@ -122,8 +122,9 @@ def norm(v):
     if isinstance(v, cs.CallPath):
         return ["CallPath", [norm(x) for x in v.path]]
     if isinstance(v, cs.SFGNode):
-        return ["SFGNode", norm(v.node_type), norm(v.def_stmt_id), norm(v.index), norm(v.node_id), norm(v.context_id),
-                norm(v.name), norm(v.line_no), norm(v.operation), norm(v.access_path)]
+        return ["SFGNode", {"node_type": norm(v.node_type), "def_stmt_id": norm(v.def_stmt_id), "index": norm(v.index),
+                            "node_id": norm(v.node_id), "context_id": norm(v.context_id), "name": norm(v.name),
+                            "line_no": norm(v.line_no), "operation": norm(v.operation), "access_path": norm(v.access_path)}]
     if isinstance(v, cs.SymbolNodeInImportGraph):
         return ["ImportNode", norm(v.scope_id), norm(v.symbol_type), norm(v.symbol_id), norm(v.symbol_name), norm(v.unit_id)]
     if dataclasses.is_dataclass(v) and not isinstance(v, type):
